@@ -5,6 +5,7 @@ package main
 
 import (
 	"encoding/json"
+	"go/types"
 	"flag"
 	"fmt"
 	"os"
@@ -13,6 +14,8 @@ import (
 	"strconv"
 	"strings"
 	"time"
+
+	"golang.org/x/tools/go/ssa"
 )
 
 type propCheck struct {
@@ -36,6 +39,8 @@ func main() {
 		os.Exit(cmdCheck(os.Args[2:]))
 	case "explain":
 		os.Exit(cmdExplain(os.Args[2:]))
+	case "xref":
+		os.Exit(cmdXref(os.Args[2:]))
 	case "list":
 		ids := make([]string, 0, len(registry))
 		for id := range registry {
@@ -178,6 +183,53 @@ func cmdExplain(args []string) int {
 	if still > 0 {
 		fmt.Printf("VIOLATION property=%s replay=%s\n", v.PropertyID, args[0])
 		return 1
+	}
+	return 0
+}
+
+// cmdXref: cross-reference listings (not checks): generic analyses run over the whole repository to discover candidate
+// rule instances; every instance is read and either frozen in a rule table or dismissed.
+func cmdXref(args []string) int {
+	if len(args) < 1 {
+		usage()
+	}
+	e, err := Load("/repo", nil, nil)
+	if err != nil {
+		fmt.Println("load failed:", err)
+		return 1
+	}
+	switch args[0] {
+	case "lost-updates":
+		fields := map[*types.Var]bool{}
+		for _, fn := range e.RepoFuncs {
+			AllInstrs(fn, func(in ssa.Instruction) {
+				if st, ok := in.(*ssa.Store); ok {
+					if f := fieldOfAddr(st.Addr); f != nil {
+						fields[f] = true
+					}
+				}
+			})
+		}
+		n := 0
+		for _, fn := range e.RepoFuncs {
+			for f := range fields {
+				has := false
+				AllInstrs(fn, func(in ssa.Instruction) {
+					if st, ok := in.(*ssa.Store); ok && fieldOfAddr(st.Addr) == f {
+						has = true
+					}
+				})
+				if !has {
+					continue
+				}
+				lus, _ := e.lostUpdates(fn, f)
+				for _, lu := range lus {
+					n++
+					fmt.Printf("%s: %s.%s read at %s, possibly written by %s, overwritten at %s\n", FnName(fn), f.Pkg().Name(), f.Name(), e.InstrPos(lu.Load), e.InstrPos(lu.Writer), e.InstrPos(lu.Store))
+				}
+			}
+		}
+		fmt.Println(n, "candidates")
 	}
 	return 0
 }
